@@ -175,6 +175,30 @@ CLAIMED = {
              "dynamic features invisible to the AST walk are covered by the runtime suite only; NumPy/SciPy determinism.",
         technique="Lean 4 proof (invariant over an abstract heap) + certificate checking by decide +kernel over a generated IR + runtime differential",
         design="§3 C18"),
+    "C09": dict(
+        text="Lean 4 theorems over the reals (Mathlib measure theory): the Abel (line-of-sight) integral of the indicator of a radial "
+             "shell [a, b) is twice the difference of the half-chords, for every shell and every distance; hence every entry of the "
+             "Daun degree-0 projected basis and of the onion-peeling weight matrix W (all i, j) equals the Abel integral of its "
+             "rectangular basis function, whose documented formula is also proved. Tie: Lean matrices (onionW, twoPointD, "
+             "threePointD, daun0-2) vs the implementation's arrays entrywise. Oracle: scipy quadrature of the defining integrals "
+             "for daun 0-3 (degree 3 via the clamped cubic Hermite spline), basex χ_k/ρ_k for several σ, rbasex p_{R;n}, and the "
+             "inverse-Abel integrals of the two-/three-point local interpolants; onion D·W = 1.",
+        note="Partial: theorem-backed families are daun degree 0 and onion-peeling W; the other families are quadrature-backed "
+             "(1e-9) at special and random indices. Trusted: Lean kernel + standard axioms; scipy.integrate.quad; the reading of "
+             "each basis function from the documentation; rbasex P[n][0,0]=1 (n>0) is a documented convention, not an integral.",
+        technique="Lean 4 proof (Lebesgue integral of indicator, real square-root inequalities) + entrywise differential check + quadrature oracle",
+        design="§3 C09"),
+    "C10": dict(
+        text="Lean 4 theorems (any field): the shift/stretch coefficient transform of Polynomial/SPolynomial yields the coefficients "
+             "of p((r−r₀)/s) for every degree, r₀ and s ≠ 0 of either sign (binomial theorem + sum exchange); Angular products are "
+             "polynomial products; cossin(m, n) holds the coefficients of x^m(1−x²)^{n/2}. Tie: Polynomial.func vs the Lean "
+             "transform; Angular products/cossin vs the model. Oracle: func and abel of random pieces vs the polynomial and vs "
+             "scipy line-of-sight quadrature (relative to term size), piecewise sums, scalar ops, copies, SPolynomial on 2-D grids, "
+             "Angular algebra, Legendre series, B-spline conversion, ApproxGaussian tolerances.",
+        note="Partial: the closed-form Abel integrals (Polynomial.a recursion, SPolynomial.F) and ApproxGaussian's tolerance are "
+             "measured (quadrature / dense grid), not proved. Trusted: Lean kernel + standard axioms; scipy quad.",
+        technique="Lean 4 proof (binomial theorem, finite-sum algebra) + differential correspondence + quadrature oracle",
+        design="§3 C10"),
 }
 
 NOT_YET = "check not built yet in this session (planned, see DESIGN.md §3); not claimed until its theorems and correspondence run"
